@@ -38,7 +38,9 @@ MANIFEST = dict(
          '(bytes and CBOR item); an extended key hashes as its first 32 bytes = its non-extended key; the add_script_input gate '
          'accepts a script only if its specified hash equals the payment credential (own-script, offered, reference-UTxO and '
          'chain-context paths) and a datum only if its hash equals the datum hash; the built body carries H 32 of exactly the '
-         'auxiliary data shipped, None when there is none. Constants (sizes, prefixes, cut, tags, hrp) are regenerated from the '
+         'auxiliary data shipped, None when there is none; an output given a datum through add_output (fresh, re-used or decoded '
+         'output object) is locked by H 32 of exactly the datum bytes shipped (decision procedure KOutDatum on the built '
+         'transaction). Constants (sizes, prefixes, cut, tags, hrp) are regenerated from the '
          'source and proved equal to the specification. Correspondence on the real objects incl. byte slices cut from the '
          'library\'s own serializations (transaction, witness set, outputs). '
          'STATE (IdsSeq.v): a state machine over (serialized item, values remembered by memoised accessors) with operations read '
